@@ -1171,6 +1171,11 @@ static const CFun CFUNS[] = {
     { "c.tan", 0, 32, 2, [](cld a, cld, cld, long double) { return std::tan(a); } },
     { "c.tanh", 0, 32, 2, [](cld a, cld, cld, long double) { return std::tanh(a); } },
     { "c.pow", 4, 32, 1, [](cld a, cld, cld, long double y) { return std::pow(a, cld(y, 0)); } },
+    // interleaved memory forms: element i of an array of std::complex<T> <-> lane i of real() / imag(), exactly
+    { "c.load_unaligned", 0, 0, 0, [](cld a, cld, cld, long double) { return a; } },
+    { "c.load_aligned", 0, 0, 0, [](cld a, cld, cld, long double) { return a; } },
+    { "c.store_unaligned", 0, 0, 0, [](cld a, cld, cld, long double) { return a; } },
+    { "c.store_aligned", 0, 0, 0, [](cld a, cld, cld, long double) { return a; } },
     { "c.sincos", 7, 8, 4, [](cld a, cld, cld, long double) { return std::sin(a); } },
 };
 
